@@ -83,6 +83,9 @@ def check_pair(a, b, kind, le, Ls):
 
 def run(rep, tier, seed):
     le = imp()
+    for bad in string_questions(le)[:1]:
+        rep.violations.append({'key': 'strings', 'kind': 'strings', 'what': bad['what'], 'text': '%s / %s' % (bad['a'], bad['b'])})
+    rep.count('string_question_sequences', 6)
     Ls = instances(le)
     rng = random.Random(seed)
     n = 12000 if tier == 'thorough' else 1200
@@ -144,7 +147,37 @@ def run(rep, tier, seed):
                               % (build_expr(a), build_expr(b), r[:3], got))
 
 
+def string_questions(le):
+    """Strings as parsed objects, on one shared instance asked repeatedly under both tokenizers and in both orders: the answer
+    for two strings is the answer for their parses (same tokenizer) on a fresh instance, whatever was asked before."""
+    T = [le.LicenseSymbol('GPL-2.0', aliases=('gpl2', 'GNU GPL 2')), le.LicenseSymbol('mit', aliases=('MIT license',)),
+         le.LicenseSymbol('cp', is_exception=True)]
+    pairs = [('gpl2', 'GPL-2.0'), ('gpl2 or mit', 'mit or GPL-2.0'), ('gpl2 and mit', 'GPL-2.0'), ('mit or GPL-2.0', 'gpl2'),
+             ('GNU GPL 2 with cp', 'gpl-2.0 WITH cp'), ('mit', 'MIT'), ('foo and mit', 'mit and FOO')]
+    out = []
+    for order in ((False, True), (True, False), (None, True), (True, None), (None, False), (False, None)):
+        L = le.Licensing(T)
+        for simple in order:
+            kw = {} if simple is None else {'simple': simple}
+            for a, b in pairs:
+                F = le.Licensing(T)
+                try:
+                    pa, pb = F.parse(a, **kw), F.parse(b, **kw)
+                except le.ExpressionError:
+                    continue
+                for name in ('is_equivalent', 'contains'):
+                    want = getattr(F, name)(pa, pb)
+                    got = getattr(L, name)(a, b, **kw)
+                    if got != want:
+                        out.append({'what': '%s(%r, %r, %r) on strings is %r after the questions %r; on their parses it is %r'
+                                            % (name, a, b, kw, got, order, want), 'a': a, 'b': b, 'order': list(order)})
+    return out
+
+
 def replay(payload):
     le = imp()
+    if payload.get('kind') == 'strings':
+        bad = string_questions(le)
+        return (not bad, bad[0]['what'] if bad else 'strings answer as their parses')
     err, eq, co = check_pair(payload['a'], payload['b'], payload.get('pairkind', 'independent'), le, instances(le))
     return (err is None, err or 'laws hold on this pair')
